@@ -25,14 +25,22 @@ package replace
 
 // safety aspect: the bodies below are verified for absence of panics (C09).
 //
-// Navigation model of the dependency (trusted): jsonpointer navigates the document consistently, i.e. when the JSON
-// pointer `key` resolves in the document (keyOK), the object found at its parent pointer holds the last token of the
-// key (holds): a non-nil map, a slice or tuple with that index in range, a non-nil holder object. These two facts are
-// `trusted_ensures` of getPointerFromKey / getParentFromKey: assumed by their callers, not checked against the bodies.
+// Navigation model of the dependency (trusted, stated on the dependency calls): jsonpointer navigates the document
+// consistently. `resolves(sp, p)`: the JSON pointer with text p resolves in document sp; `objAt(sp, p)`: what it yields.
+// Pointer.Get establishes both for the pointer's text (extern contracts, aspect safe). Axiom navParent: when a pointer
+// resolves, the object found at its parent pointer holds its last token *decoded* (~1 -> '/', ~0 -> '~'): a non-nil
+// map with that key, a slice or tuple with that index in range, a non-nil holder object (axioms holds*).
+// getPointerFromKey / getParentFromKey are verified against this model; one fact stays a trusted postcondition:
+// re-deriving a key from an already URL-unescaped parent path designates the same pointer (no '%' in names).
 
-//@ fun keyOK(sp any, key string) bool reads heaps DOC
+//@ fun resolves(sp any, pth string) bool reads heaps DOC
+//@ fun objAt(sp any, pth string) any reads heaps DOC
 //@ fun holds(c any, e string) bool reads heaps DOC
+//@ fun ptrPath(p jsonpointer.Pointer) string
+//@ fun keyPath(key string) string = url.PathUnescape(substr(key, 1, len(key)))
+//@ fun keyOK(sp any, key string) bool = resolves(sp, keyPath(key))
 //@ fun isDoc(sp any) bool = (sp is *spec.Swagger && sp.(*spec.Swagger) != nil) || (sp is *spec.Schema && sp.(*spec.Schema) != nil)
+//@ axiom navParent: forall sp any :: forall p string :: resolves(sp, p) ==> holds(objAt(sp, path.Dir(p)), jsonpointer.Unescape(path.Base(p)))
 
 //@ axiom holdsDefs: forall c any :: forall e string :: holds(c, e) && c is spec.Definitions ==> c.(spec.Definitions) != nil
 //@ axiom holdsSchemaMap: forall c any :: forall e string :: holds(c, e) && c is map[string]spec.Schema ==> c.(map[string]spec.Schema) != nil
@@ -50,13 +58,14 @@ package replace
 //@   aspect safe
 //@   requires len(key) >= 1 && isDoc(sp)
 //@   modifies ghost failed
-//@   trusted_ensures result2 == nil ==> keyOK(sp, key)
 //@   ensures result2 == nil ==> failed == old(failed)
+//@   ensures result2 == nil && key != "#/" ==> keyOK(sp, key)
+//@   ensures result2 == nil && key == "#/" ==> result1 == sp
 //@ func getParentFromKey(sp, key)
 //@   aspect safe
 //@   requires len(key) >= 1 && isDoc(sp)
 //@   modifies ghost failed
-//@   trusted_ensures result3 == nil && keyOK(sp, key) ==> holds(result2, result1)
+//@   ensures result3 == nil && keyOK(sp, key) ==> holds(result2, result1)
 //@   trusted_ensures result3 == nil ==> keyOK(sp, "#" + result)
 //@   ensures result3 == nil ==> failed == old(failed)
 //@ func UpdateRef(sp, key, ref)
